@@ -1,7 +1,7 @@
 (** C18 - A configuration that loads has no dangling references. *)
 From Coq Require Import List Arith Bool.
 Import ListNotations.
-From TaskctlV Require Import Model.Graph Model.Sched Model.Build Proofs.GraphDfs Proofs.SchedLive Proofs.BuildSpec.
+From TaskctlV Require Import Model.Graph Model.Sched Model.Build Proofs.GraphDfs Proofs.SchedLive Proofs.SchedFinal Proofs.BuildSpec Proofs.Acyclic.
 
 (* accepted <-> well-formed: every stage refers to an existing task or pipeline, every depends_on names a stage of the
    same pipeline, every watcher refers to an existing task, stage names are unique within a pipeline, dependencies are
@@ -25,6 +25,48 @@ Print Assumptions C18_run_never_aborts.
 Theorem C18_inclusion_acyclic : forall d, build_def false d = true -> ~ cyclic (declared_edges (inclusion_decls d)).
 Proof. intros d Hd. apply build_def_iff in Hd. exact (proj1 (proj2 Hd)). Qed.
 Print Assumptions C18_inclusion_acyclic.
+
+(* every pipeline of an accepted configuration meets the hypotheses of the scheduler theorems: its dependencies are known and
+   ranked (acyclic) - obtained from the graph builder's "no cycle" by topological sorting with the verified DFS *)
+Theorem C18_accepted_pipelines_meet_scheduler_hypotheses : forall d, build_def false d = true ->
+  forall p, In p (df_pipelines d) -> acyclic_cfg (to_config (snd p)) /\ wf_deps (to_config (snd p)).
+Proof.
+  intros d Hd p Hp. apply build_def_iff in Hd. destruct Hd as (_ & _ & Hw). split.
+  - eapply accepted_pipeline_acyclic. exact (Hw p Hp).
+  - eapply accepted_pipeline_wf_deps. exact (Hw p Hp).
+Qed.
+Print Assumptions C18_accepted_pipelines_meet_scheduler_hypotheses.
+
+(* hence, for every accepted configuration (no further hypothesis on the graph): a run cannot spin - one full polling pass makes
+   progress whenever nothing is running and something waits (C03) - and its outcome does not depend on timing (C02) *)
+Theorem C18_accepted_pipelines_make_progress : forall d, build_def false d = true -> forall p, In p (df_pipelines d) ->
+  let c := to_config (snd p) in
+  forall es0 s, exec c es0 s -> (forall i, i < length c -> st s i <> Running) -> (exists i, i < length c /\ st s i = Waiting) ->
+  forall es s', run c s es = Some s' -> (forall i, i < length c -> In (Visit i) es) ->
+  (forall j, st s' j = Waiting -> st s j = Waiting) /\ (exists i, i < length c /\ st s i = Waiting /\ st s' i <> Waiting).
+Proof.
+  intros d Hd p Hp c. destruct (C18_accepted_pipelines_meet_scheduler_hypotheses d Hd p Hp) as [Ha Hw].
+  intros es0 s. exact (full_pass_makes_progress c es0 s Ha Hw).
+Qed.
+Print Assumptions C18_accepted_pipelines_make_progress.
+Theorem C18_accepted_pipelines_are_timing_independent : forall d, build_def false d = true -> forall p, In p (df_pipelines d) ->
+  let c := to_config (snd p) in
+  forall out es1 s1 es2 s2,
+  (forall i ok, In (Ret i ok) es1 -> ok = out i) -> (forall i ok, In (Ret i ok) es2 -> ok = out i) ->
+  exec c es1 s1 -> exited s1 = true -> pend s1 = [] -> cancelled s1 = false ->
+  exec c es2 s2 -> exited s2 = true -> pend s2 = [] -> cancelled s2 = false ->
+  forall i, i < length c -> st s1 i = st s2 i.
+Proof.
+  intros d Hd p Hp c out es1 s1 es2 s2. destruct (C18_accepted_pipelines_meet_scheduler_hypotheses d Hd p Hp) as [Ha Hw].
+  apply (same_final_statuses c out es1 s1 es2 s2); [now apply acyclic_cfg_equiv | exact Hw |].
+  (* stages built by to_config carry no condition *)
+  intros i. unfold c, to_config, cond_of, stage_of.
+  destruct (Nat.lt_ge_cases i (length (snd p))) as [Hi|Hi].
+  - rewrite (nth_indep _ dflt (mkStage (map (fun d0 => index_of d0 (map stage_name (snd p))) (sd_deps (mkSD 0 0 0 []))) false CNone)) by now rewrite map_length.
+    rewrite (map_nth (fun s => mkStage (map (fun d0 => index_of d0 (map stage_name (snd p))) (sd_deps s)) false CNone)). discriminate.
+  - rewrite nth_overflow by now rewrite map_length. discriminate.
+Qed.
+Print Assumptions C18_accepted_pipelines_are_timing_independent.
 
 (* non-vacuity: two pipelines, one including the other, a diamond of dependencies, a watcher *)
 Definition ex_def : defn := mkDef [10; 11; 12]
